@@ -222,6 +222,18 @@ def run_history(family: str, hist: list[tuple], policy_factory: Callable[[], Any
         return events, info
     finally:
         W.close()
+        _collect()
+
+
+_runs = 0
+
+
+def _collect() -> None:
+    global _runs
+    _runs += 1
+    if _runs % 50 == 0:
+        import gc
+        gc.collect()
 
 
 def scripts(rng: random.Random, n: int, max_len: int) -> list[list[str]]:
@@ -378,11 +390,11 @@ def run(ctx: Ctx) -> None:
                 continue
             for k in range(nshard):
                 jobs.append({"mode": "dfs", "family": fam, "history": par_history(*case), "shard": (k, nshard),
-                             "max_preemptions": 2 if ctx.quick else 3, "max_executions": 1200 if ctx.quick else 40000})
+                             "max_preemptions": 2 if ctx.quick else 3, "max_executions": 1200 if ctx.quick else 8000})
         for case in wide:
             h = par_history(*case)
             jobs.append({"mode": "dfs", "family": fam, "history": h, "max_preemptions": 1 if ctx.quick else 2,
-                         "max_executions": 150 if ctx.quick else 5000})
+                         "max_executions": 150 if ctx.quick else 1000})
             nseed = 16 if ctx.quick else 400
             for k in range(0, nseed, 8):
                 jobs.append({"mode": "seeds", "family": fam, "history": h, "seeds": [ctx.seed * 1000 + x for x in range(k, k + 8)]})
